@@ -593,6 +593,38 @@ def rand_matrix(rng, nprng, n, kind):
         A = np.diag(nprng.uniform(-2, 2, size=d)).astype(complex)
     elif kind == "int":
         A = nprng.integers(-3, 4, size=(d, d))
+    elif kind.startswith("near_"):
+        # a matrix with a structure (symmetric, Hermitian, diagonal, real) at scale s, plus a part that breaks the
+        # structure and is small next to s but far above every tolerance of the oracle: structure tests made with a
+        # relative tolerance (allclose) take such a matrix for structured and lose the small part
+        s = rng.choice([1.0, 1.0, 30.0, 1e3, 1e5])
+        eps = s * 10.0 ** -rng.randint(3, 6) * rng.uniform(0.3, 3.0)
+        B = nprng.normal(size=(d, d)) + 1j * nprng.normal(size=(d, d))
+        P = nprng.normal(size=(d, d)) + 1j * nprng.normal(size=(d, d))
+        if kind == "near_sym":
+            if rng.random() < 0.5:
+                B, P = B.real, P.real
+            base, pert = s * (B + B.T) / 2, eps * (P - P.T) / 2
+        elif kind == "near_herm":
+            base, pert = s * (B + B.conj().T) / 2, eps * (P - P.conj().T) / 2
+        elif kind == "near_diag":
+            base, pert = s * np.diag(np.diag(B)), eps * (P - np.diag(np.diag(P)))
+        else:  # near_real
+            base, pert = s * B.real, 1j * eps * P.real
+        if rng.random() < 0.3:
+            # the breaking part on a single Pauli string
+            letters = [rng.choice("IXYZ") for _ in range(n)]
+            k = rng.randrange(n)
+            if kind in ("near_sym", "near_real"):
+                letters = [l if l != "Y" else "Z" for l in letters]
+                letters[k] = "Y"  # exactly one Y: antisymmetric and imaginary
+                pert = D.string_matrix(list(enumerate(letters)), eps, n)
+            elif kind == "near_herm":
+                pert = D.string_matrix(list(enumerate(letters)), 1j * eps, n)
+            else:
+                letters[k] = rng.choice("XY")
+                pert = D.string_matrix(list(enumerate(letters)), eps, n)
+        A = np.asarray(base + pert)
     else:
         A = np.zeros((d, d))
     return A
@@ -754,7 +786,7 @@ def run_case(ctx):
         nmax = 3 if ctx.quick else 4
         n = rng.choice([1, 2, 2, 3, 3] if nmax == 3 else [1, 2, 2, 3, 3, 4])
         kind = rng.choice(["complex", "complex", "real", "hermitian", "pauli", "pauli", "dyadic", "sparse",
-                           "diagonal", "int", "zero"])
+                           "diagonal", "int", "zero", "near_sym", "near_sym", "near_herm", "near_diag", "near_real"])
         A = rand_matrix(rng, nprng, n, kind)
         box = rng.choice(["ndarray"] * 11 + ["list"] * 5 + ["tuple", "rows", "fortran", "view"])
         as_list = box in ("list", "tuple")
